@@ -195,6 +195,9 @@ type query struct {
 type expect struct {
 	Frame int
 	Q     query
+	Slot  int    // enumerated signer slot asked about, -1 otherwise
+	Sit   string // situation class (for the coverage statistics)
+	Desc  string
 }
 
 // built is a chain compiled once and reused for every signer batch.
@@ -217,6 +220,9 @@ func keyBytes(i int) []byte { return chainx.Acc(i).PublicKey().Bytes() }
 
 func (bl *builder) queries(i int) (pre, post []query) {
 	f := bl.b.Frames[i]
+	if bl.b.Chain.NoRS && i != len(bl.b.Frames)-1 {
+		return // the levels above are checked by the variant with all flags
+	}
 	for s := 0; s < slots; s++ {
 		a := chainx.Acc(slotBase + s).ScriptHash()
 		pre = append(pre, query{Label: fmt.Sprintf("s%d:hash", s), Val: a.BytesBE(), Ref: -1, Acc: a})
@@ -295,7 +301,7 @@ func (bl *builder) body(i int) any {
 		prog := []any{}
 		for _, q := range pre {
 			prog = append(prog, []any{chainx.OpCheckWitness, q.Val})
-			b.Expect = append(b.Expect, expect{i, q})
+			b.Expect = append(b.Expect, expect{Frame: i, Q: q})
 		}
 		if next < len(b.Frames) {
 			nf := b.Frames[next]
@@ -312,7 +318,7 @@ func (bl *builder) body(i int) any {
 		}
 		for _, q := range post {
 			prog = append(prog, []any{chainx.OpCheckWitness, q.Val})
-			b.Expect = append(b.Expect, expect{i, q})
+			b.Expect = append(b.Expect, expect{Frame: i, Q: q})
 		}
 		return prog
 	}
@@ -321,7 +327,7 @@ func (bl *builder) body(i int) any {
 		emitVal(w.BinWriter, q.Val)
 		emit.Syscall(w.BinWriter, interopnames.SystemRuntimeCheckWitness)
 		emit.Opcodes(w.BinWriter, opcode.DROP)
-		b.Expect = append(b.Expect, expect{i, q})
+		b.Expect = append(b.Expect, expect{Frame: i, Q: q})
 	}
 	for _, q := range pre {
 		cw(q)
@@ -411,6 +417,17 @@ func (w *world) build(c chain) (*built, error) {
 		if e.Q.Ref >= 0 {
 			e.Q.Acc = b.Frames[e.Q.Ref].Hash
 		}
+		e.Slot = -1
+		if strings.HasPrefix(e.Q.Label, "s") && strings.Contains(e.Q.Label, ":") {
+			fmt.Sscanf(e.Q.Label, "s%d:", &e.Slot)
+		}
+		f := b.Frames[e.Frame]
+		e.Desc = "in " + f.Kind
+		if e.Frame > 0 {
+			e.Desc += " called by " + b.Frames[e.Frame-1].Kind
+		}
+		e.Desc += fmt.Sprintf(" at depth %d", e.Frame)
+		e.Sit = fmt.Sprintf("%s<%s@%d rs=%v q=%s", f.Kind, callerKind(b, e.Frame), min(e.Frame, 2), f.Eff.Has(callflag.ReadStates), strings.TrimLeft(e.Q.Label, "s0123456789"))
 	}
 	return b, nil
 }
@@ -522,17 +539,12 @@ func judge(b *built, ref []signer, ncfg int, trace []obs, state vmstate.State, f
 		o := trace[k]
 		f := b.Frames[e.Frame]
 		w := where{Current: party{Hash: f.Hash, Groups: f.Groups}, ByEntry: e.Frame <= 1}
-		desc := "in " + f.Kind
+		desc := e.Desc
 		if e.Frame > 0 {
 			c := b.Frames[e.Frame-1]
 			w.Calling = &party{Hash: c.Hash, Groups: c.Groups}
-			desc += " called by " + c.Kind
 		}
-		desc += fmt.Sprintf(" at depth %d", e.Frame)
-		slot := -1
-		if strings.HasPrefix(e.Q.Label, "s") && strings.Contains(e.Q.Label, ":") {
-			fmt.Sscanf(e.Q.Label, "s%d:", &slot)
-		}
+		slot := e.Slot
 		if slot >= ncfg {
 			continue // slot not used by this batch (the account did not sign: covered by nonsigner)
 		}
@@ -556,7 +568,7 @@ func judge(b *built, ref []signer, ncfg int, trace []obs, state vmstate.State, f
 		want := witnessed(ref, w, acc)
 		st.Evals++
 		if st.Contexts != nil {
-			st.Contexts[fmt.Sprintf("%s<%s@%d rs=%v q=%s", f.Kind, callerKind(b, e.Frame), min(e.Frame, 2), f.Eff.Has(callflag.ReadStates), strings.TrimLeft(e.Q.Label, "s0123456789"))] = struct{}{}
+			st.Contexts[e.Sit] = struct{}{}
 		}
 		if o.Res == 2 {
 			if !f.Eff.Has(callflag.ReadStates) {
